@@ -151,6 +151,7 @@ PANIC_BY_FN = {
     ("injector_core/common.rs", "allocate_jit_memory_unix"): 4,
     ("injector_core/patch_arm64.rs", "apply_branch_patch"): 5,
     ("interface/verifier.rs", "drop"): 8,
+    ("interface/func_ptr.rs", "new"): 10,
 }
 
 
